@@ -35,7 +35,7 @@ type JJ = JubjubExtended;
 
 pub const JJ_OPS: &[&str] = &[
     "assign", "add", "double", "negate", "msm", "msm_bounded", "mul_by_constant", "from_coordinates", "is_equal", "select",
-    "assert_equal", "assert_not_equal", "is_zero",
+    "assert_equal", "assert_not_equal", "is_zero", "hash_to_curve",
 ];
 pub const FC_OPS: &[&str] = &["assign", "add", "double", "negate", "from_coordinates", "is_equal", "select", "mul_by_constant", "msm", "msm_bounded", "assert_equal", "assert_not_equal", "is_zero"];
 
@@ -56,6 +56,9 @@ pub fn arch(c: &OpCase) -> ZkStdLibArch {
     let mut a = ZkStdLibArch { nr_pow2range_cols: c.cols, ..ZkStdLibArch::default() };
     if c.op.starts_with("ec.jj") {
         a.jubjub = true;
+        if c.op.ends_with("hash_to_curve") {
+            a.poseidon = true;
+        }
     } else if c.op.starts_with("ec.k256") {
         a.secp256k1 = true;
     } else {
@@ -142,6 +145,12 @@ pub fn gen_case(rng: &mut Prng, op: &str) -> OpCase {
         (a, b)
     };
     match parts[2] {
+        "hash_to_curve" => {
+            // 0..4 field elements (boundary values included)
+            let n = rng.below(5);
+            p.push(n);
+            ins = (0..n).map(|_| crate::util::draw_fq(rng)).collect();
+        }
         "assign" | "double" | "negate" | "is_zero" => bins = vec![point(rng)],
         "add" | "is_equal" | "assert_equal" | "assert_not_equal" => {
             let (a, b) = pair(rng);
@@ -248,6 +257,12 @@ fn jj_body<L: Layouter<F>>(c: &OpCase, op: &str, s: &ZkStdLib, l: &mut L, w: &[V
         let v = jj.as_public_input(l, p)?;
         publish(s, l, &v)
     };
+    if op == "hash_to_curve" {
+        let xs: Vec<AN> = w.iter().map(|v| s.assign(l, *v)).collect::<Result<_, _>>()?;
+        publish(s, l, &xs)?;
+        let r = s.hash_to_curve(l, &xs)?;
+        return pubp(l, &r);
+    }
     let n_pts = match op {
         "msm" | "msm_bounded" => c.p[0] as usize,
         "from_coordinates" => 0,
@@ -521,6 +536,7 @@ pub fn n_input_groups(c: &OpCase) -> usize {
                 2
             }
         }
+        "hash_to_curve" => 1,
         _ => sel + c.bins.len(),
     }
 }
@@ -567,6 +583,20 @@ pub fn check(c: &OpCase, publics: &[Fq]) -> Result<bool, String> {
                 other => Err(format!("output bit {other:?} differs from {e}")),
             }
         };
+        if op == "hash_to_curve" {
+            // the published point must lie in the prime-order subgroup (dec_jj) and be the
+            // off-circuit hash of the published inputs (the second party; both halves of
+            // the library implement the map, the group-law model judges the result's membership)
+            use midnight_circuits::{ecc::hash_to_curve::HashToCurveGadget, hash::poseidon::PoseidonChip, instructions::HashToCurveCPU, types::Instantiable};
+            type Htc = HashToCurveGadget<F, JJ, AN, PoseidonChip<F>, EccChip<JJ>>;
+            let inputs: Vec<Fq> = gi[0].to_vec();
+            if inputs.len() != c.p[0] as usize {
+                return Err(format!("{} inputs published, {} expected", inputs.len(), c.p[0]));
+            }
+            let e = <Htc as HashToCurveCPU<JJ, Fq>>::hash_to_curve(&inputs);
+            let ev = <AssignedNativePoint<JJ> as Instantiable<F>>::as_public_input(&e);
+            return outp(0, (fq_to_big(&ev[0]), fq_to_big(&ev[1])));
+        }
         if op == "from_coordinates" {
             let g = &gi[0];
             let p = (fq_to_big(&g[0]), fq_to_big(&g[1]));
